@@ -20,7 +20,12 @@ res = {}
 try:
     for p in props:
         t0 = time.time()
+        # the evidence file describes the UNCHANGED tree: a run against a seeded change must not replace it
+        ev = f"/verif/evidence/{p}.json"
+        keep = open(ev).read() if os.path.exists(ev) else None
         r = subprocess.run(["./check", p, tier], cwd="/verif", capture_output=True, text=True)
+        if keep is not None:
+            open(ev, "w").write(keep)
         viol = [l for l in r.stdout.splitlines() if l.startswith("VIOLATION")]
         withinput = [l for l in viol if not l.rstrip().endswith("no-failing-input-found")]
         if r.returncode == 1 and withinput:
